@@ -47,7 +47,9 @@ def gen_float(rng):
 
 
 def gen_str(rng, sep, esc):
-    alpha = ['a', 'b', ' ', '"', esc, sep, sep[0], 'é', '0', 'T', ',', ';', '\t', '|', "'", esc + '"', '""', esc + esc]
+    alpha = ['a', 'b', ' ', '"', esc, sep, sep[0], 'é', '0', 'T', ',', ';', '\t', '|', "'", esc + '"', '""', esc + esc,
+             # line boundaries of str.splitlines() that are not '\n': ordinary field content for line framing
+             '\x0c', '\x0b', '\x1c', '\x1d', '\x1e', '\x85', '\u2028', '\u2029']
     n = rng.choice([0, 0, 1, 2, 3, 6, 12])
     return ''.join(rng.choice(alpha) for _ in range(n))
 
